@@ -647,8 +647,13 @@ def mode_robust(req_cases):
                 "np.random": hashlib.sha256(repr(np.random.get_state()[1][:8].tolist()).encode() + str(np.random.get_state()[2]).encode()).hexdigest()[:12],
                 "files": sorted(os.listdir(scratch)), "recursionlimit": sys.getrecursionlimit()}
     out = []
+    import tempfile
+    fdir = tempfile.mkdtemp(prefix="c19files_", dir=os.path.dirname(str(scratch)) or None)   # beside, not inside, the watched directory
+    fpath = os.path.join(fdir, "archive.skops")
     for case in cases:
         data = bytes.fromhex(case["hex"]) if "hex" in case else build_zip(case["schema"], case["members"])
+        with open(fpath, "wb") as fh:
+            fh.write(data)
         before = world()
         rec = {"calls": {}}
 
@@ -694,6 +699,16 @@ def mode_robust(req_cases):
             with contextlib.redirect_stdout(buf):
                 sio.visualize(data)
         call("visualize", do_vis)
+        # the same archive through its path: the file entry points must leave the process as they found it as well
+        # (whether they succeed or refuse)
+        call("get_untrusted_types(file)", lambda: sio.get_untrusted_types(file=fpath))
+        call("load(file,None)", lambda: sio.load(fpath, trusted=None))
+        call("load(file,reported)", lambda: sio.load(fpath, trusted=list(gut)))
+
+        def do_vis_file():
+            with contextlib.redirect_stdout(buf):
+                sio.visualize(fpath)
+        call("visualize(file)", do_vis_file)
         after = world()
         rec["changed"] = {k: [before[k], after[k]] for k in before if before[k] != after[k]}
         if after["cwd"] != str(scratch):
@@ -702,6 +717,7 @@ def mode_robust(req_cases):
     import shutil
     os.chdir("/")
     shutil.rmtree(scratch, ignore_errors=True)
+    shutil.rmtree(fdir, ignore_errors=True)
     return out
 
 
